@@ -248,18 +248,20 @@ PROPS = {
         "quick_pct": 100,
         "race": True,
         "shards": 12,
+        "fuzz": [('FuzzC16Interleaved', 90)],
         "gomaxprocs": [16, 1, 2, 4],
         "replay_times": 5,
         "schedule_dependent": True,
         "timeout_quick": 1500,
         "timeout_thorough": 5400,
-        "technique": "property-based testing (rapid) under the Go race detector: generated population histories with the parallel executor (1..PopSize species, high structural-mutation rates, several GOMAXPROCS values); any race report is a violation, and the C01/C02/C03/C10 invariants are checked after every parallel turnover",
+        "technique": "property-based testing (rapid) under the Go race detector: generated population histories with the parallel executor (1..PopSize species, high structural-mutation rates, several GOMAXPROCS values); any race report is a violation, and the C01/C02/C03/C10 invariants are checked after every parallel turnover; histories end with a turnover under a cancelled context (failure path of every reproduction goroutine). Second generator with a harness-owned schedule: structural mutations of genomes of different species run against a wrapper of the population's innovation record that lets another species' complete mutation happen before a generated one of the (atomic) shared calls - every such interleaving must keep one meaning per innovation number and node id",
         "level_text": "Generated epoch histories run in a binary built with -race: the detector is happens-before based, so two conflicting unordered accesses are reported whether or not they overlapped in time in the observed run; "
                       "the generator makes 'several species performing structural mutations in one turnover' the common case and the evidence counts such turnovers. Logical guarantees are checked on the interleavings that happened.",
         "level_note": "trusted: the Go race detector (no false positives; races on paths that were not executed stay invisible); schedules are sampled, not enumerated - logical errors that need one particular interleaving are only found by chance; replays re-run a case 5 times",
-        "rule": "G-epochs scenarios with the parallel executor, population 3-30 (60), up to 12 (30) epochs, shards run with GOMAXPROCS 16/1/2/4; non-trivial turnover = at least two species (reproduction goroutines) and new innovation numbers issued; distinct by (epoch, #species, #species with innovations, max innovation, size)",
+        "rule": "G-epochs scenarios with the parallel executor, population 3-30 (60), up to 12 (30) epochs, shards run with GOMAXPROCS 16/1/2/4; non-trivial turnover = at least two species (reproduction goroutines) and new innovation numbers issued; distinct by (epoch, #species, #species with innovations, max innovation, size). Interleaved: G-family of 4 related genomes, 1-12 (30) structural mutations each interrupted 0-2 times before its 1st-5th shared call; non-trivial = at least two steps in which an interruption took place",
         "assumptions": ["non-modular genomes (the wire format between the goroutines has no module syntax)", "identical numbers for identical innovations are not required under the parallel executor (C03 promises them for the sequential one)"],
-        "expect_classes": {"parallel": ["species:1", "species:2-5", "species:6+", "turnover with several reproduction goroutines and new innovations", "turnover founding new species"]},
+        "expect_classes": {"parallel": ["species:1", "species:2-5", "species:6+", "turnover with several reproduction goroutines and new innovations", "turnover founding new species", "turnover under a cancelled context returned an error"],
+                           "interleaved": ["add_link interrupted by another structural mutation (result true)", "add_node interrupted by another structural mutation (result true)"]},
     },
     "C17": {
         "run": "^TestC17",
